@@ -1,13 +1,30 @@
-"""C16 - Raw HTTP messages are parsed into exactly their parts (structural part)."""
+"""C16 - Raw HTTP messages are parsed into exactly their parts (structural part).
+
+All obligations are phrased over *value terms*: `_Sym` evaluates an expression at a program point into a canonical
+symbolic term (flow-sensitive reaching definitions, tuple packing/unpacking, `partition` components, constant folding,
+comprehensions / `dict()` over generators / dict-filling loops normalised to one `map` form).  A rule then compares the
+term of a constructor field (located by role: "the body field of an HttpRequest construction") with the term the
+property demands.  Names of locals, temporaries, statement order, helper extraction, hoisting, early-return vs if/else,
+loop vs comprehension and keyword order are invisible at this level.
+
+Three verdicts per comparison: the term equals the demanded one -> discharged; the term is completely understood and
+differs -> violated; the term contains a part the evaluator cannot model (`opaque`) -> undecided.
+"""
 
 from __future__ import annotations
 
 import ast
 
 from csverif import effects
-from csverif.astutil import assignments_to, body_walk, compare_parts, const_eval, dotted, fn_calls, is_const, kwarg, NotConst, params, src, statements
-from csverif.cfg import ENTRY, EXIT
-from csverif.q import FuncView, dominating_conditions, guarded_by, origin, raise_class, reaching_defs
+from csverif.astutil import body_walk, const_eval, dotted, fn_calls, kwarg, NotConst, params, src, statements
+from csverif.q import FuncView, dominating_conditions, raise_class, reaching_defs
+
+CRLF = b"\r\n"
+_CODEC_LATIN1 = ("latin-1", "latin1", "iso-8859-1", "iso8859-1", "l1", "latin", "8859", "cp819", "iso-ir-100")
+_DICT_MUTATORS = {"update", "setdefault", "pop", "popitem", "clear", "__setitem__", "__delitem__"}
+_CMP = {ast.Eq: "==", ast.NotEq: "!=", ast.Lt: "<", ast.LtE: "<=", ast.Gt: ">", ast.GtE: ">=", ast.Is: "is", ast.IsNot: "is not", ast.In: "in", ast.NotIn: "not in"}
+_MIRROR = {"==": "==", "!=": "!=", "<": ">", "<=": ">=", ">": "<", ">=": "<="}
+ELEM = ("elem",)
 
 
 def _c(node):
@@ -17,184 +34,873 @@ def _c(node):
         return None
 
 
-def _unpack_of(f, name):
-    """(assign stmt, index, value expr) for a name bound by tuple-unpacking."""
-    out = []
-    for st in statements(f.node):
-        if isinstance(st, ast.Assign) and isinstance(st.targets[0], ast.Tuple):
-            for i, t in enumerate(st.targets[0].elts):
-                if dotted(t) == name:
-                    out.append((st, i, st.value))
-    return out
+# ---------------------------------------------------------------------------------------------------------- terms
+# ("param", name) ("const", v) ("global", dotted) ("partition"|"rpartition", base, sep) ("part", kind, base, sep, i)
+# ("tuple", t...) ("item", base, i) ("index", base, idx) ("slice", base, lo, hi, step) ("meth", name, recv, args, kwargs)
+# ("call", name, args, kwargs) ("ctor", class, n) ("attr", name, base) ("gen", iter, elt) ("map", iter, key, val, init)
+# ("dict", items) ("elem",) ("iterelem", iter) ("phi", alts) ("cmp", op, l, r) ("not", t) ("and"|"or", ts)
+# ("binop", op, l, r) ("opaque", why)
+def _opaque(why):
+    return ("opaque", why)
+
+
+def _subterms(t):
+    if isinstance(t, tuple):
+        yield t
+        for x in t:
+            yield from _subterms(x)
+
+
+def _has_opaque(t):
+    return any(s and s[0] == "opaque" for s in _subterms(t))
+
+
+def _contains(t, sub):
+    return any(s == sub for s in _subterms(t))
+
+
+def _mk_phi(alts):
+    flat = []
+    for a in alts:
+        for x in (a[1] if a and a[0] == "phi" else (a,)):
+            if x not in flat:
+                flat.append(x)
+    if len(flat) == 1:
+        return flat[0]
+    return ("phi", tuple(sorted(flat, key=repr)))
+
+
+def _alts(t):
+    return list(t[1]) if t and t[0] == "phi" else [t]
+
+
+def _as_tuple(base):
+    if base[0] == "tuple":
+        return list(base[1:])
+    if base[0] in ("partition", "rpartition"):
+        return [("part", base[0], base[1], base[2], i) for i in range(3)]
+    return None
+
+
+def _mk_item(base, i):
+    if base[0] == "phi":
+        return _mk_phi([_mk_item(a, i) for a in base[1]])
+    elts = _as_tuple(base)
+    if elts is not None and isinstance(i, int) and -len(elts) <= i < len(elts):
+        return elts[i]
+    return ("item", base, i)
+
+
+def _mk_slice(base, lo, hi, step):
+    elts = _as_tuple(base)
+    if elts is not None and all(x is None or isinstance(x, int) for x in (lo, hi, step)):
+        try:
+            return ("tuple",) + tuple(elts[lo:hi:step])
+        except ValueError:
+            pass
+    return ("slice", base, lo, hi, step)
+
+
+def _subst(t, repl):
+    """Replace the element marker of the innermost open comprehension by `repl`, re-simplifying on the way."""
+    if not isinstance(t, tuple):
+        return t
+    if t == ELEM:
+        return repl
+    if t and t[0] == "item":
+        return _mk_item(_subst(t[1], repl), t[2])
+    if t and t[0] == "slice" and all(x is None or isinstance(x, int) for x in t[2:]):
+        return _mk_slice(_subst(t[1], repl), *t[2:])
+    if t and t[0] in ("gen", "map"):
+        # the element marker inside the element expressions belongs to that inner comprehension
+        return (t[0], _subst(t[1], repl)) + t[2:]
+    return tuple(_subst(x, repl) for x in t)
+
+
+def _mk_gen(it, elt):
+    if it[0] == "gen":
+        return ("gen", it[1], _subst(elt, it[2]))
+    return ("gen", it, elt)
+
+
+def _mk_map(it, key, val, init=()):
+    if it[0] == "gen":
+        return ("map", it[1], _subst(key, it[2]), _subst(val, it[2]), init)
+    return ("map", it, key, val, init)
+
+
+def _strip_codec(t):
+    """(inner term, [codec steps outermost first]) - peel `.encode(..)`/`.decode(..)`/`str(x, enc)`/`bytes(x, enc)`."""
+    steps = []
+    while True:
+        if t[0] == "meth" and t[1] in ("encode", "decode"):
+            steps.append((t[1], t[3], t[4]))
+            t = t[2]
+        elif t[0] == "call" and t[1] in ("str", "bytes") and len(t[2]) >= 2:
+            steps.append(("decode" if t[1] == "str" else "encode", t[2][1:], t[3]))
+            t = t[2][0]
+        else:
+            return t, steps
+
+
+def _show(t, depth=0):
+    """Compact rendering of a term for details (never contains names of locals of the analysed code)."""
+    if not isinstance(t, tuple) or not t:
+        return repr(t)
+    if depth > 6:
+        return "..."
+    h = t[0]
+    s = lambda x: _show(x, depth + 1)
+    if h == "param":
+        return f"<{t[1]}>"
+    if h == "const":
+        return repr(t[1])
+    if h == "global":
+        return t[1]
+    if h in ("partition", "rpartition"):
+        return f"{s(t[1])}.{h}({s(t[2])})"
+    if h == "part":
+        return f"{s(t[2])}.{t[1]}({s(t[3])})[{t[4]}]"
+    if h == "tuple":
+        return "(" + ", ".join(s(x) for x in t[1:]) + ")"
+    if h in ("item", "index"):
+        return f"{s(t[1])}[{t[2] if h == 'item' else s(t[2])}]"
+    if h == "slice":
+        return f"{s(t[1])}[{t[2]}:{t[3]}:{t[4]}]"
+    if h == "meth":
+        return f"{s(t[2])}.{t[1]}({', '.join([s(a) for a in t[3]] + [f'{k}={s(v)}' for k, v in t[4]])})"
+    if h == "call":
+        return f"{t[1]}({', '.join([s(a) for a in t[2]] + [f'{k}={s(v)}' for k, v in t[3]])})"
+    if h == "ctor":
+        return f"{t[1]}(...)"
+    if h == "attr":
+        return f"{s(t[2])}.{t[1]}"
+    if h == "gen":
+        return f"({s(t[2])} for $ in {s(t[1])})"
+    if h == "map":
+        return f"{{{s(t[2])}: {s(t[3])} for $ in {s(t[1])}}}" + (f" over initial {dict(t[4])!r}" if t[4] else "")
+    if h == "dict":
+        return "{" + ", ".join(f"{s(k)}: {s(v)}" for k, v in t[1]) + "}"
+    if h == "elem":
+        return "$"
+    if h == "iterelem":
+        return f"<element of {s(t[1])}>"
+    if h == "phi":
+        return " | ".join(s(a) for a in t[1])
+    if h == "cmp":
+        return f"{s(t[2])} {t[1]} {s(t[3])}"
+    if h == "not":
+        return f"not {s(t[1])}"
+    if h in ("and", "or"):
+        return "(" + f" {h} ".join(s(x) for x in t[1]) + ")"
+    if h == "binop":
+        return f"({s(t[2])} {t[1]} {s(t[3])})"
+    if h == "opaque":
+        return f"?[{t[1]}]"
+    return repr(t)
+
+
+class _Sym:
+    """Symbolic evaluation of expressions of one function (candidate for csverif.q: `value_term`)."""
+
+    def __init__(self, ctx, f):
+        self.ctx, self.f, self.fn = ctx, f, f.node
+        self.cfg = ctx.cfg(f)
+        self.fv = FuncView.of(f.node)
+        self.params = params(f.node)
+        self.locals = set(self.params) | {n.id for n in ast.walk(f.node) if isinstance(n, ast.Name) and isinstance(n.ctx, ast.Store)}
+        self.ctor_nodes = []
+        self._elem_loops = set()
+        self._active = set()   # (name, id(def stmt)) under evaluation: loop-carried definitions are not unfolded
+
+    # -------------------------------------------------------------------------------------------------- expressions
+    def ev(self, e, at, env=None, depth=0):
+        env = env or {}
+        if e is None:
+            return ("const", None)
+        if depth > 30:
+            return _opaque("definition chain too deep")
+        if not isinstance(e, (ast.JoinedStr, ast.Name, ast.Attribute, ast.Call, ast.Subscript)):
+            try:
+                v = const_eval(e)
+                if v is None or isinstance(v, (bytes, str, int, float, bool)):
+                    return ("const", v)
+            except (NotConst, TypeError):
+                pass
+        d1 = depth + 1
+        if isinstance(e, ast.Name):
+            return self._name(e, at, env, d1)
+        if isinstance(e, ast.NamedExpr):
+            return self.ev(e.value, at, env, d1)
+        if isinstance(e, (ast.Tuple, ast.List)):
+            if any(isinstance(x, ast.Starred) for x in e.elts):
+                return _opaque("starred element")
+            return ("tuple",) + tuple(self.ev(x, at, env, d1) for x in e.elts)
+        if isinstance(e, ast.Dict):
+            if any(k is None for k in e.keys):
+                return _opaque("dict unpacking")
+            return ("dict", tuple((self.ev(k, at, env, d1), self.ev(v, at, env, d1)) for k, v in zip(e.keys, e.values)))
+        if isinstance(e, ast.Attribute):
+            d = dotted(e)
+            if d is not None and d.split(".")[0] not in self.locals and d.split(".")[0] not in env:
+                return ("global", d)
+            return ("attr", e.attr, self.ev(e.value, at, env, d1))
+        if isinstance(e, ast.Subscript):
+            base = self.ev(e.value, at, env, d1)
+            if isinstance(e.slice, ast.Slice):
+                parts = [self.ev(x, at, env, d1) if x is not None else ("const", None) for x in (e.slice.lower, e.slice.upper, e.slice.step)]
+                if all(p[0] == "const" and (p[1] is None or type(p[1]) is int) for p in parts):
+                    return _mk_slice(base, *[p[1] for p in parts])
+                return ("slice", base) + tuple(parts)
+            idx = self.ev(e.slice, at, env, d1)
+            if idx[0] == "const" and type(idx[1]) is int:
+                return _mk_item(base, idx[1])
+            return ("index", base, idx)
+        if isinstance(e, ast.Call):
+            return self._call(e, at, env, d1)
+        if isinstance(e, ast.IfExp):
+            return _mk_phi([self.ev(e.body, at, env, d1), self.ev(e.orelse, at, env, d1)])
+        if isinstance(e, ast.Compare):
+            if len(e.ops) != 1 or type(e.ops[0]) not in _CMP:
+                return _opaque("chained comparison")
+            return ("cmp", _CMP[type(e.ops[0])], self.ev(e.left, at, env, d1), self.ev(e.comparators[0], at, env, d1))
+        if isinstance(e, ast.UnaryOp) and isinstance(e.op, ast.Not):
+            return ("not", self.ev(e.operand, at, env, d1))
+        if isinstance(e, ast.BoolOp):
+            return ("and" if isinstance(e.op, ast.And) else "or", tuple(self.ev(v, at, env, d1) for v in e.values))
+        if isinstance(e, ast.BinOp):
+            return ("binop", type(e.op).__name__, self.ev(e.left, at, env, d1), self.ev(e.right, at, env, d1))
+        if isinstance(e, (ast.GeneratorExp, ast.ListComp, ast.DictComp)):
+            return self._comp(e, at, env, d1)
+        return _opaque(type(e).__name__)
+
+    def _bind_target(self, tgt, base, out):
+        """name -> term for a (possibly nested) assignment target bound to `base`; False if it has a starred part."""
+        if isinstance(tgt, ast.Name):
+            out[tgt.id] = base
+            return True
+        if isinstance(tgt, (ast.Tuple, ast.List)):
+            ok = True
+            for i, t in enumerate(tgt.elts):
+                if isinstance(t, ast.Starred):
+                    return False
+                ok = self._bind_target(t, _mk_item(base, i), out) and ok
+            return ok
+        return True  # attribute / subscript targets bind no local
+
+    def _comp(self, e, at, env, depth):
+        if len(e.generators) != 1 or e.generators[0].ifs or e.generators[0].is_async:
+            return _opaque("comprehension with several generators or a filter")
+        if any(_contains(v, ELEM) for v in env.values()) or self._elem_loops:
+            return _opaque("nested comprehension")
+        g = e.generators[0]
+        it = self.ev(g.iter, at, env, depth)
+        env2 = dict(env)
+        if not self._bind_target(g.target, ELEM, env2):
+            return _opaque("starred comprehension target")
+        if isinstance(e, ast.DictComp):
+            return _mk_map(it, self.ev(e.key, at, env2, depth), self.ev(e.value, at, env2, depth))
+        return _mk_gen(it, self.ev(e.elt, at, env2, depth))
+
+    def _call(self, e, at, env, depth):
+        if any(isinstance(a, ast.Starred) for a in e.args) or any(k.arg is None for k in e.keywords):
+            return _opaque("call with * or ** arguments")
+        args = tuple(self.ev(a, at, env, depth) for a in e.args)
+        kwargs = tuple(sorted((k.arg, self.ev(k.value, at, env, depth)) for k in e.keywords))
+        fnode = e.func
+        d = dotted(fnode)
+        head = d.split(".")[0] if d else None
+        local_head = head is not None and (head in self.locals or head in env)
+        if isinstance(fnode, ast.Attribute) and (d is None or local_head):
+            recv = self.ev(fnode.value, at, env, depth)
+            if fnode.attr in ("partition", "rpartition") and len(args) == 1 and not kwargs:
+                return (fnode.attr, recv, args[0])
+            return ("meth", fnode.attr, recv, args, kwargs)
+        if d is None:
+            return _opaque("call of a computed callee")
+        if local_head:
+            return _opaque("call of a local callable")
+        cal = self.ctx.rs.resolve_call(self.f, e)
+        if cal.kind == "class":
+            if not any(n is e for n in self.ctor_nodes):
+                self.ctor_nodes.append(e)
+            return ("ctor", (cal.fq or d).split(".")[-1], [i for i, n in enumerate(self.ctor_nodes) if n is e][0])
+        if cal.kind in ("func", "struct"):
+            return _opaque(f"call of package function {cal.fq}")
+        name = (cal.fq if cal.kind == "external" and cal.fq and cal.fq != "?" else d).split(".")[-1]
+        if name == "dict" and not kwargs:
+            if not args:
+                return ("dict", ())
+            if len(args) == 1:
+                if args[0][0] in ("dict", "map"):
+                    return args[0]
+                return _mk_map(args[0], _mk_item(ELEM, 0), _mk_item(ELEM, 1))
+        if name == "bytes" and len(args) == 1 and not kwargs and args[0][0] == "part":
+            return args[0]   # bytes(<bytes>) is a copy of the same value
+        if name in ("list", "tuple", "iter") and len(args) == 1 and not kwargs and args[0][0] in ("gen", "tuple"):
+            return args[0]
+        return ("call", name, args, kwargs)
+
+    # -------------------------------------------------------------------------------------------------------- names
+    def _name(self, e, at, env, depth):
+        name = e.id
+        if name in env:
+            return env[name]
+        if name not in self.locals:
+            return ("global", name)
+        rd = reaching_defs(self.ctx, self.f, name, at)
+        if not rd:
+            return _opaque("local without a reaching definition")
+        alts = []
+        for st, v in rd:
+            key = (name, id(st))
+            if key in self._active:
+                alts.append(_opaque("loop-carried definition"))
+                continue
+            self._active.add(key)
+            try:
+                alts.append(self._def_term(name, st, v, at, depth))
+            finally:
+                self._active.discard(key)
+        return _mk_phi(alts)
+
+    def _def_term(self, name, st, v, at, depth):
+        if st is self.fn:
+            return ("param", name)
+        if v is not None:
+            dst = st if isinstance(st, ast.stmt) else self.fv.stmt_of(st)
+            if isinstance(v, ast.Dict) or (isinstance(v, ast.Call) and dotted(v.func) == "dict" and "dict" not in self.locals and not v.args and not v.keywords):
+                return self._dict_build(name, dst, v, at, depth)
+            return self.ev(v, dst, {}, depth)
+        out = {}
+        if isinstance(st, ast.Assign):
+            base = self.ev(st.value, st, {}, depth)
+            for t in st.targets:
+                if not self._bind_target(t, base, out):
+                    return _opaque("starred unpacking")
+        elif isinstance(st, ast.For):
+            base = ELEM if id(st) in self._elem_loops else ("iterelem", self.ev(st.iter, st, {}, depth))
+            if not self._bind_target(st.target, base, out):
+                return _opaque("starred unpacking")
+        return out.get(name, _opaque("binding form not modelled"))
+
+    def _dict_build(self, name, dst, v, at, depth):
+        """A local bound to a dict display: the display itself if it is never written to on the way to `at`; the
+        canonical `map` if it is filled by one unconditional `d[k] = v` in one simple for-loop; opaque otherwise."""
+        init = self.ev(v, dst, {}, depth)
+        use = self.fv.stmt_of(at)
+        cfg = self.cfg
+        if use is None or not cfg.has(use) or not cfg.has(dst):
+            return init
+        sites = []
+        for n in body_walk(self.fn):
+            if isinstance(n, ast.Subscript) and isinstance(n.ctx, (ast.Store, ast.Del)) and isinstance(n.value, ast.Name) and n.value.id == name:
+                sites.append(n)
+            elif isinstance(n, ast.Call) and isinstance(n.func, ast.Attribute) and isinstance(n.func.value, ast.Name) and n.func.value.id == name and n.func.attr in _DICT_MUTATORS:
+                sites.append(n)
+        rel = []
+        for n in sites:
+            s = self.fv.stmt_of(n)
+            if s is not None and cfg.has(s) and cfg.reaches(cfg.node(dst), cfg.node(s)) and (s is use or cfg.reaches(cfg.node(s), cfg.node(use))):
+                rel.append((n, s))
+        if not rel:
+            return init
+        if len(rel) != 1 or init[0] != "dict":
+            return _opaque("mapping written to in several places")
+        n, s = rel[0]
+        if not (isinstance(s, ast.Assign) and len(s.targets) == 1 and s.targets[0] is n):
+            return _opaque("mapping modified by something else than one item assignment")
+        lp = self.fv.enclosing(s, (ast.For, ast.AsyncFor, ast.While))
+        if not isinstance(lp, ast.For) or lp.orelse or self.fv.enclosing(lp, (ast.For, ast.AsyncFor, ast.While)) is not None:
+            return _opaque("item assignment outside a simple for-loop")
+        if not any(b is s for b in lp.body) or any(isinstance(x, (ast.Break, ast.Continue, ast.Return)) for b in lp.body for x in ast.walk(b)):
+            return _opaque("conditional item assignment or loop with break/continue")
+        if not (cfg.dominates(cfg.node(dst), cfg.node(lp)) and cfg.dominates(cfg.node(lp), cfg.node(use))):
+            return _opaque("filling loop not on every path between the initial mapping and its use")
+        self._elem_loops.add(id(lp))
+        try:
+            key = self.ev(n.slice, s, {}, depth)
+            val = self.ev(s.value, s, {}, depth)
+        finally:
+            self._elem_loops.discard(id(lp))
+        return _mk_map(self.ev(lp.iter, lp, {}, depth), key, val, init[1])
+
+
+# ------------------------------------------------------------------------------------------------------ judgement
+def _judge(term, pred):
+    """'ok' if every alternative of the term satisfies pred; 'bad' if one that is fully understood does not;
+    'und' if the failing alternatives contain parts the evaluator cannot model."""
+    bad = [a for a in _alts(term) if not pred(a)]
+    if not bad:
+        return "ok"
+    return "bad" if any(not _has_opaque(a) for a in bad) else "und"
+
+
+def _worst(*vs):
+    return "bad" if "bad" in vs else "und" if "und" in vs else "ok"
+
+
+def _emit(ctx, rule, kind, f, text, verdict, ok_detail, bad_detail, node=None):
+    if verdict == "und":
+        ctx.undecided(rule, kind, f, text, "the value is computed in a way the symbolic evaluation does not model: " + bad_detail, node)
+    else:
+        ctx.ob(rule, kind, f, text, verdict == "ok", ok_detail if verdict == "ok" else bad_detail, node)
+
+
+def _atoms(t, pol):
+    """Flatten a condition term holding with polarity `pol` into (atom, polarity) facts."""
+    if t[0] == "not":
+        yield from _atoms(t[1], not pol)
+    elif (t[0] == "and" and pol) or (t[0] == "or" and not pol):
+        for x in t[1]:
+            yield from _atoms(x, pol)
+    else:
+        yield t, pol
+
+
+def _is_ws_split(t):
+    """tokens = <line>[.rstrip()/.strip()/.lstrip()].split() (whitespace split); returns the line term or None."""
+    if t[0] == "meth" and t[1] == "split" and not t[4] and (not t[3] or t[3] == (("const", None),)):
+        line = t[2]
+        while line[0] == "meth" and line[1] in ("rstrip", "strip", "lstrip") and not line[3] and not line[4]:
+            line = line[2]
+        return line
+    return None
+
+
+def _is_split(t):
+    return t[0] == "meth" and t[1] in ("split", "rsplit")
+
+
+def _understood_test(t):
+    """A condition made of constants, slices, comparisons and bytes methods only (no library/helper call whose meaning
+    the rules do not know)."""
+    return not any(s and s[0] in ("call", "global", "opaque", "index", "ctor", "attr") for s in _subterms(t))
+
+
+def _len_fact(atom, pol):
+    """(sequence term, lo, hi) established by `len(T) <op> k` holding with polarity pol; None if not such a test."""
+    if atom[0] != "cmp" or atom[1] not in _MIRROR:
+        return None
+    op, l, r = atom[1], atom[2], atom[3]
+    if l[0] == "const" and r[0] != "const":
+        op, l, r = _MIRROR[op], r, l
+    if not (l[0] == "call" and l[1] == "len" and len(l[2]) == 1 and r[0] == "const" and type(r[1]) is int):
+        return None
+    k = r[1]
+    if not pol:
+        op = {"==": "!=", "!=": "==", "<": ">=", "<=": ">", ">": "<=", ">=": "<"}[op]
+    lo, hi = {"==": (k, k), "!=": (None, None), "<": (None, k - 1), "<=": (None, k), ">": (k + 1, None), ">=": (k, None)}[op]
+    return l[2][0], lo, hi
+
+
+def _is_prefix_test(atom, lines):
+    """Case-insensitive `HTTP/` prefix test on one of the start-line terms."""
+    def folded(t, want):
+        # <line>.upper() / .lower() ; want = the constant compared with
+        return t[0] == "meth" and t[1] in ("upper", "lower") and not t[3] and not t[4] and want == getattr(b"HTTP/", t[1])()
+
+    if atom[0] == "meth" and atom[1] == "startswith" and len(atom[3]) == 1 and not atom[4] and atom[3][0][0] == "const":
+        r = atom[2]
+        return folded(r, atom[3][0][1]) and r[2] in lines
+    if atom[0] == "cmp" and atom[1] == "==":
+        l, r = atom[2], atom[3]
+        if l[0] == "const":
+            l, r = r, l
+        if r[0] != "const" or not isinstance(r[1], bytes):
+            return False
+        if folded(l, r[1]):
+            inner = l[2]
+            return inner[0] == "slice" and inner[2] in (None, 0) and inner[3] == 5 and inner[4] in (None, 1) and inner[1] in lines
+        if l[0] == "slice" and l[2] in (None, 0) and l[3] == 5 and l[4] in (None, 1):
+            return folded(l[1], r[1]) and l[1][2] in lines
+    return False
+
+
+def _ext_name(ctx, f, call):
+    """Last segment of the (import-resolved) name of a called library function."""
+    d = dotted(call.func)
+    if d is None:
+        return None
+    try:
+        cal = ctx.rs.resolve_call(f, call)
+    except Exception:  # pragma: no cover
+        cal = None
+    if cal is not None and cal.kind == "external" and cal.fq and cal.fq != "?":
+        return cal.fq.split(".")[-1]
+    if cal is not None and cal.kind in ("func", "class", "struct"):
+        return None
+    return d.split(".")[-1]
+
+
+def _fields_of(ctx, cls_fq):
+    try:
+        cd = ctx.repo.cls(cls_fq)
+    except Exception:
+        return []
+    return [st.target.id for st in cd.body if isinstance(st, ast.AnnAssign) and isinstance(st.target, ast.Name)]
+
+
+def _field(ctx, call, kind, name):
+    """The argument expression bound to NamedTuple field `name` (keyword or positional)."""
+    v = kwarg(call, name)
+    if v is not None:
+        return v
+    if any(isinstance(a, ast.Starred) for a in call.args) or any(k.arg is None for k in call.keywords):
+        return None
+    order = _fields_of(ctx, f"c2.{kind}")
+    if name in order and order.index(name) < len(call.args):
+        return call.args[order.index(name)]
+    return None
 
 
 def run(ctx):
     rep = ctx.rep
     rep.explanation = (
-        "Static analysis of c2.parse_raw_http: def-use of the head/body split (first CRLFCRLF via partition, body handed to "
-        "both constructors untouched), dominance of the three-part length test over each start-line unpack, binding of the "
-        "start-line positions to the like-named fields, response/request branch selection by the HTTP/ prefix, header line "
-        "partition at ': ', and the exception-escape set of the function (subset of ValueError)."
+        "Static analysis of c2.parse_raw_http by symbolic evaluation (flow-sensitive reaching definitions, partition components, "
+        "tuple packing, loops/comprehensions/dict() normalised to one mapping form): every constructed message gets the tail after "
+        "the first CRLFCRLF of the unmodified argument as body, the start line is the first CRLF-component of the head, its "
+        "whitespace tokens are only unpacked under a dominating length-3 fact and are bound to the like-named fields, "
+        "response/request construction is selected by the case-insensitive HTTP/ prefix, the header map is built from the "
+        "': '-partition of each remaining head line, and the exception-escape set of the function is a subset of ValueError."
     )
     rep.not_decided = ["percent-decoding details (parse_qsl semantics)", "duplicate headers", "the spurious {b'': b''} header for a message without header lines (value-level)"]
     rep.trusted_base = ["CPython ast", "bytes.partition/split semantics", "urllib.parse"]
     f = ctx.repo.func("c2.parse_raw_http")
     cfg = ctx.cfg(f)
     fv = FuncView.of(f.node)
+    S = _Sym(ctx, f)
+    if not params(f.node):
+        ctx.undecided("R1", "AGREE", f, "constructors", "the parser takes no positional argument")
+        return
     data = params(f.node)[0]
-    # ---- R1
+    DATA = ("param", data)
+    HEAD = ("part", "partition", DATA, ("const", CRLF + CRLF), 0)
+    BODY = ("part", "partition", DATA, ("const", CRLF + CRLF), 2)
+    FL = ("part", "partition", HEAD, ("const", CRLF), 0)
+    REST = ("part", "partition", HEAD, ("const", CRLF), 2)
+
+    # ---- the constructions (located by resolved class)
     ctors = {"HttpResponse": [], "HttpRequest": []}
     for c in fn_calls(f.node):
         d = dotted(c.func)
-        if d in ctors:
-            ctors[d].append(c)
-    ok = all(len(v) == 1 for v in ctors.values())
-    ctx.ob("R1", "AGREE", f, "constructors", ok, f"one HttpResponse and one HttpRequest construction: {({k: len(v) for k, v in ctors.items()})}")
-    if not ok:
-        return
-    for kind, cs in ctors.items():
-        c = cs[0]
-        b = kwarg(c, "body")
-        bname = dotted(b)
-        up = _unpack_of(f, bname) if bname else []
-        good = len(up) == 1 and up[0][1] == 2 and isinstance(up[0][2], ast.Call) and isinstance(up[0][2].func, ast.Attribute) and up[0][2].func.attr == "partition" \
-            and dotted(up[0][2].func.value) == data and _c(up[0][2].args[0]) == b"\r\n\r\n" and len(assignments_to(f.node, bname)) == 1
-        ctx.ob("R1", "AGREE", f, f"{kind}(body=...)", bool(good),
-               f"body is the third component of {data}.partition(b'\\r\\n\\r\\n') (first occurrence), passed through no call" if good else f"body of {kind} is {src(b)}: not the untouched tail after the first CRLFCRLF", c)
-    rebound = [src(st)[:50] for st, v in assignments_to(f.node, data)]
-    ctx.ob("R1", "AGREE", f, f"{data} not rebound", not rebound, "the raw message is partitioned as received" if not rebound else f"the raw message is rewritten before it is split ({rebound}): the body is no longer byte-for-byte")
-    # roles: FL = the start line (first component of <head>.partition(b"\r\n")), HD = the header map (the dict that is
-    # passed as headers= to the constructors)
-    FL = None
-    for st in statements(f.node):
-        if isinstance(st, ast.Assign) and isinstance(st.targets[0], ast.Tuple) and len(st.targets[0].elts) == 3 and isinstance(st.value, ast.Call) and isinstance(st.value.func, ast.Attribute) \
-                and st.value.func.attr == "partition" and st.value.args and _c(st.value.args[0]) == b"\r\n":
-            FL = dotted(st.targets[0].elts[0])
-    HD = dotted(kwarg(ctors["HttpResponse"][0], "headers")) or "headers"
-    fl = _unpack_of(f, FL) if FL else []
-    good = len(fl) == 1 and fl[0][1] == 0 and isinstance(fl[0][2], ast.Call) and fl[0][2].func.attr == "partition" and _c(fl[0][2].args[0]) == b"\r\n"
-    head_src = dotted(fl[0][2].func.value) if good else None
-    hup = _unpack_of(f, head_src) if head_src else []
-    good = good and any(i == 0 and isinstance(v, ast.Call) and dotted(v.func.value) == data for st, i, v in hup)
-    ctx.ob("R1", "AGREE", f, "first_line", bool(good), "start line = head.partition(b'\\r\\n')[0] of the head before the first CRLFCRLF" if good else "start line is not the first CRLF-partition of the head")
-    # ---- R2 / R3
-    esc = effects.Escape(ctx)
-    unpacks = [st for st in statements(f.node) if isinstance(st, ast.Assign) and isinstance(st.targets[0], ast.Tuple) and len(st.targets[0].elts) == 3 and dotted(st.value) is not None]
-    ctx.rep.count("start_line_unpacks", len(unpacks), floor=2)
-    for st in unpacks:
-        safe = esc._unpack_safe(f, st, st.targets[0])
-        src_name = dotted(st.value)
-        # the guard's other edge raises ValueError
-        defs = reaching_defs(ctx, f, src_name, st)
-        split_ok = all(v is not None and src(v).endswith(".rstrip().split()") or (v is not None and src(v).endswith(".split()")) for _s, v in defs) and bool(defs)
-        ctx.ob("R2", "DOM", f, src(st), safe and split_ok, f"unpack of {src_name} is dominated by a `len({src_name}) == 3` fact={safe}; {src_name} is the whitespace split of the start line={split_ok}", st)
-    for r in cfg.raise_stmts():
-        ctx.ob("R2", "EXIT", f, src(r)[:50], raise_class(r) == "ValueError", f"malformed start line raises {raise_class(r)}", r)
-    # positions
-    resp, req = ctors["HttpResponse"][0], ctors["HttpRequest"][0]
+        if d is None or d.split(".")[0] in S.locals:
+            continue
+        cal = ctx.rs.resolve_call(f, c)
+        name = (cal.fq or d).split(".")[-1] if cal.kind == "class" else None
+        if name in ctors:
+            ctors[name].append(c)
+    counts = {k: len(v) for k, v in ctors.items()}
+    if not all(counts.values()):
+        ctx.undecided("R1", "AGREE", f, "constructors", f"no direct construction of both message classes in the parser any more: {counts}")
+        if not any(counts.values()):
+            return
+    else:
+        ctx.ob("R1", "AGREE", f, "constructors", True, f"HttpResponse and HttpRequest constructions found: {counts}")
 
-    def pos_of(name, at):
-        """index of the 3-unpack that defines `name` (reaching `at`), following one int()/decode()/urlparse hop."""
-        rd = reaching_defs(ctx, f, name, at)
-        for st, v in rd:
-            if isinstance(st, ast.Assign) and isinstance(st.targets[0], ast.Tuple) and len(st.targets[0].elts) == 3:
-                for i, t in enumerate(st.targets[0].elts):
-                    if dotted(t) == name:
-                        return i
+    def fld(c, kind, name):
+        e = _field(ctx, c, kind, name)
+        return None if e is None else S.ev(e, fv.stmt_of(c))
+
+    # ---- R1 body
+    for kind, cs in ctors.items():
+        for c in cs:
+            t = fld(c, kind, "body")
+            if t is None:
+                ctx.undecided("R1", "AGREE", f, f"{kind}(body=...)", "the body argument of the construction cannot be located", c)
+                continue
+            v = _judge(t, lambda a: a == BODY)
+            _emit(ctx, "R1", "AGREE", f, f"{kind}(body=...)", v,
+                  f"body is the third component of <{data}>.partition(b'\\r\\n\\r\\n') of the argument as received (first occurrence), passed through no call",
+                  f"body of {kind} is {_show(t)}: not the untouched tail of the raw message after the first CRLFCRLF", c)
+
+    # ---- roles: the token sequences the start-line fields are taken from
+    tokens = []   # distinct token-sequence terms
+
+    def tok_of(t, idx):
+        """t == <T>[idx]: remember T and return it."""
+        if t[0] == "item" and t[2] == idx:
+            if t[1] not in tokens:
+                tokens.append(t[1])
+            return t[1]
         return None
 
-    from csverif.q import inline as _inl
-    st_kw = kwarg(resp, "status")
-    st_o = _inl(f.node, st_kw)
-    s_ok = isinstance(st_o, ast.Call) and dotted(st_o.func) == "int" and isinstance(st_o.args[0], ast.Call) and st_o.args[0].func.attr == "decode" and pos_of(dotted(st_o.args[0].func.value), resp) == 1
-    r_ok = pos_of(dotted(kwarg(resp, "reason")), resp) == 2
-    ctx.ob("R3", "AGREE", f, "HttpResponse(status, reason)", bool(s_ok and r_ok), f"status = int(<second token>.decode())={bool(s_ok)}; reason = third token={r_ok}", resp)
-    m_ok = pos_of(dotted(kwarg(req, "method")), req) == 0
-    uri_kw = kwarg(req, "uri")
-    par_kw = kwarg(req, "params")
-    # uri = urlparse(<sanitised second token>).path ; params = dict(parse_qsl(<same>.query))
-    ups = [c for c in fn_calls(f.node) if dotted(c.func) in ("urlparse", "urllib.parse.urlparse")]
-    u_ok = p_ok = False
-    if len(ups) == 1:
-        res_st = fv.stmt_of(ups[0])
-        res = dotted(res_st.targets[0]) if isinstance(res_st, ast.Assign) else None
-        arg = ups[0].args[0]
-        # the argument derives from the second token only
-        chain = [arg]
-        rd = reaching_defs(ctx, f, dotted(arg), ups[0]) if dotted(arg) else []
-        second = False
-        for s2, v in rd:
-            if v is not None and dotted(arg) in {n.id for n in ast.walk(v) if isinstance(n, ast.Name)}:
-                # uri = uri.decode(..).encode(): follows the unpacked uri
-                second = pos_of(dotted(arg), s2) == 1
-        uo = reaching_defs(ctx, f, dotted(uri_kw), req)
-        u_ok = second and any(v is not None and src(v) == f"{res}.path" for _s, v in uo)
-        po = _inl(f.node, par_kw)
-        qcalls = [c for c in ast.walk(po) if isinstance(c, ast.Call) and dotted(c.func) in ("parse_qsl", "urllib.parse.parse_qsl")]
-        # the parameter map is built from parse_qsl over the query component of that same parse, and from nothing else
-        p_ok = second and len(qcalls) == 1 and qcalls[0].args and any(isinstance(n, ast.Attribute) and n.attr == "query" and (dotted(n.value) == res or src(n.value) == src(ups[0])) for n in ast.walk(qcalls[0].args[0])) \
-            and isinstance(po, (ast.Call, ast.DictComp)) and (dotted(po.func) == "dict" if isinstance(po, ast.Call) else True)
-    ctx.ob("R3", "AGREE", f, "HttpRequest(method, uri, params)", bool(m_ok and u_ok and p_ok), f"method = first token={m_ok}; uri = urlparse(<second token>).path={u_ok}; params = mapping built from parse_qsl(<same>.query)={p_ok}", req)
-    for kind, c in (("HttpResponse", resp), ("HttpRequest", req)):
-        h = kwarg(c, "headers")
-        ctx.ob("R3", "AGREE", f, f"{kind}(headers=headers)", dotted(h) == HD and HD is not None, f"headers bound to the parsed header map: {src(h)}", c)
-    # ---- R4
-    rets = cfg.return_stmts()
-    def is_prefix_test(t):
-        s = src(t)
-        return True if (s.endswith(".startswith(b'HTTP/')") and ("upper()" in s or "lower()" in s) and FL is not None and s.startswith(FL + ".")) else None
-    for r in rets:
-        o = origin(f.node, r.value)
-        kind = dotted(o.func) if isinstance(o, ast.Call) else None
-        under = guarded_by(ctx, f, r, is_prefix_test)
-        ok = (kind == "HttpResponse" and under) or (kind == "HttpRequest" and not under)
-        ctx.ob("R4", "AGREE", f, f"return {kind}", ok, f"{kind} returned {'under' if under else 'outside'} the case-insensitive `HTTP/` prefix test on the start line", r)
+    for c in ctors["HttpResponse"]:
+        st_t, rs_t = fld(c, "HttpResponse", "status"), fld(c, "HttpResponse", "reason")
+        if st_t is None or rs_t is None:
+            ctx.undecided("R3", "AGREE", f, "HttpResponse(status, reason)", "the status/reason arguments of the construction cannot be located", c)
+            continue
+        seen = []
+
+        def p_status(a):
+            if a[0] == "call" and a[1] == "int" and len(a[2]) == 1 and not a[3]:
+                T = tok_of(_strip_codec(a[2][0])[0], 1)
+                if T is not None:
+                    seen.append(T)
+                    return True
+            return False
+
+        def p_reason(a):
+            T = tok_of(a, 2)
+            if T is not None:
+                seen.append(T)
+            return T is not None
+
+        vs, vr = _judge(st_t, p_status), _judge(rs_t, p_reason)
+        same = len({repr(x) for x in seen}) <= 1
+        v = _worst(vs, vr) if same else "bad"
+        _emit(ctx, "R3", "AGREE", f, "HttpResponse(status, reason)", v,
+              "status = int(<second token of the start line>); reason = third token of the same split",
+              f"status = {_show(st_t)} (int of the second token: {vs == 'ok'}); reason = {_show(rs_t)} (third token: {vr == 'ok'}); same token sequence: {same}", c)
+    for c in ctors["HttpRequest"]:
+        m_t, u_t, p_t = (fld(c, "HttpRequest", n) for n in ("method", "uri", "params"))
+        if m_t is None or u_t is None or p_t is None:
+            ctx.undecided("R3", "AGREE", f, "HttpRequest(method, uri, params)", "the method/uri/params arguments of the construction cannot be located", c)
+            continue
+        seen, parses = [], []
+
+        def p_method(a):
+            T = tok_of(a, 0)
+            if T is not None:
+                seen.append(T)
+            return T is not None
+
+        def p_uri(a):
+            a = _strip_codec(a)[0]
+            if a[0] == "attr" and a[1] == "path" and a[2][0] == "call" and a[2][1] == "urlparse" and a[2][2]:
+                T = tok_of(_strip_codec(a[2][2][0])[0], 1)
+                if T is not None:
+                    seen.append(T)
+                    parses.append(a[2])
+                    return True
+            return False
+
+        def p_params(a):
+            # a mapping built from parse_qsl(<the same urlparse result>.query) pairs and from nothing else
+            if a[0] != "map" or a[4]:
+                return False
+            it, k, v = a[1], _strip_codec(a[2])[0], _strip_codec(a[3])[0]
+            if not (it[0] == "call" and it[1] == "parse_qsl" and it[2]):
+                return False
+            q = _strip_codec(it[2][0])[0]
+            if not (q[0] == "attr" and q[1] == "query"):
+                return False
+            parses.append(q[2])
+            return k == _mk_item(ELEM, 0) and v == _mk_item(ELEM, 1)
+
+        vm, vu, vp = _judge(m_t, p_method), _judge(u_t, p_uri), _judge(p_t, p_params)
+        same = len({repr(x) for x in seen}) <= 1 and len({repr(x) for x in parses}) <= 1
+        v = _worst(vm, vu, vp) if same else "bad"
+        _emit(ctx, "R3", "AGREE", f, "HttpRequest(method, uri, params)", v,
+              "method = first token; uri = urlparse(<second token, re-coded only>).path; params = mapping of the parse_qsl pairs of that same parse's query",
+              f"method = {_show(m_t)} (first token: {vm == 'ok'}); uri = {_show(u_t)} (urlparse(<second token>).path: {vu == 'ok'}); params = {_show(p_t)} "
+              f"(parse_qsl pairs of <same parse>.query: {vp == 'ok'}); one token sequence and one parse: {same}", c)
+
+    # ---- R1 first_line: every token sequence is the whitespace split of the first CRLF-component of the head
+    lines = [FL]
+    if not tokens:
+        ctx.undecided("R1", "AGREE", f, "first_line", "no start-line token sequence could be located from the constructor fields")
+    for T in tokens:
+        for a in _alts(T):
+            l = _is_ws_split(a)
+            if l is not None and l not in lines:
+                lines.append(l)
+        v = _judge(T, lambda a: _is_ws_split(a) == FL)
+        _emit(ctx, "R1", "AGREE", f, "first_line", v,
+              "start-line tokens = whitespace split of head.partition(b'\\r\\n')[0], head = the part of the argument before the first CRLFCRLF",
+              f"the start-line tokens are {_show(T)}: not the whitespace split of the first CRLF-component of the head before the first CRLFCRLF")
+
+    # ---- R2: every fixed-arity consumption of a split result is dominated by a matching length fact
+    def facts_at(st):
+        """(atom term, polarity) facts established by the branch edges (and enclosing conditional expressions) that dominate st."""
+        out = []
+        for _txt, pol, test in dominating_conditions(ctx, f, st):
+            owner = fv.stmt_of(test)
+            if owner is None or not cfg.has(owner):
+                continue   # synthetic mirrored node: its original is listed as well
+            out.extend(_atoms(S.ev(test, owner), pol))
+        return out
+
+    def len_range(st, T):
+        lo = hi = None
+        for atom, pol in facts_at(st):
+            lf = _len_fact(atom, pol)
+            if lf is not None and lf[0] == T:
+                if lf[1] is not None:
+                    lo = lf[1] if lo is None else max(lo, lf[1])
+                if lf[2] is not None:
+                    hi = lf[2] if hi is None else min(hi, lf[2])
+        return lo, hi
+
+    def converts_unpack_error(st):
+        """EAFP form of the length test: the unpacking is directly in the body of a `try` whose handler for ValueError (or a
+        base class of it) ends by raising ValueError."""
+        tr = fv.parent.get(id(st))
+        if not isinstance(tr, ast.Try) or not any(b is st for b in tr.body):
+            return False
+        for h in tr.handlers:
+            names = [None] if h.type is None else [(dotted(t) or "").split(".")[-1] for t in (h.type.elts if isinstance(h.type, ast.Tuple) else [h.type])]
+            if any(n in (None, "ValueError", "Exception", "BaseException") for n in names):
+                last = h.body[-1] if h.body else None
+                return isinstance(last, ast.Raise) and (last.exc is None or raise_class(last) == "ValueError")
+        return False
+
+    sites = 0
+    for st in statements(f.node):
+        if isinstance(st, ast.Assign) and isinstance(st.targets[0], (ast.Tuple, ast.List)) and not isinstance(st.value, (ast.Tuple, ast.List)):
+            T = S.ev(st.value, st)
+            if not any(_is_split(a) for a in _alts(T)):
+                continue
+            sites += 1
+            n = len(st.targets[0].elts)
+            star = any(isinstance(x, ast.Starred) for x in st.targets[0].elts)
+            lo, hi = len_range(st, T)
+            ok = (lo is not None and lo >= n - 1) if star else (lo == hi == n)
+            eafp = not ok and not star and converts_unpack_error(st)
+            ctx.ob("R2", "DOM", f, f"unpack of the start-line tokens into {n}", ok or eafp,
+                   f"the unpacking of {_show(T)} into {n} names is " + ("inside a try whose ValueError handler raises the parser's ValueError" if eafp else f"dominated by length facts {lo}..{hi}")
+                   + ("" if ok or eafp else ": a start line with another number of parts is not rejected with the parser's ValueError before it"), st)
+    for n in body_walk(f.node):
+        if isinstance(n, ast.Subscript) and isinstance(n.ctx, ast.Load) and not isinstance(n.slice, ast.Slice):
+            i = _c(n.slice)
+            st = fv.stmt_of(n)
+            if type(i) is not int or st is None or not cfg.has(st):
+                continue
+            T = S.ev(n.value, st)
+            if not any(_is_split(a) for a in _alts(T)):
+                continue
+            sites += 1
+            lo, hi = len_range(st, T)
+            ok = lo is not None and (lo > i if i >= 0 else lo >= -i)
+            ctx.ob("R2", "DOM", f, f"start-line token [{i}]", ok, f"the access to element {i} of {_show(T)} is dominated by length facts {lo}..{hi}", n)
+    if sites:
+        ctx.rep.count("start_line_unpacks", sites, floor=2)
+    else:
+        ctx.undecided("R2", "DOM", f, "unpack of the start-line tokens", "no unpacking or indexing of a whitespace-split start line found")
+    for r in cfg.raise_stmts():
+        if r.exc is None:
+            continue   # re-raise inside a handler: covered by the escape set (R6)
+        ctx.ob("R2", "EXIT", f, src(r)[:50], raise_class(r) == "ValueError", f"malformed start line raises {raise_class(r)}", r)
+
+    # ---- R4: the kind of message constructed is selected by the case-insensitive HTTP/ prefix of the start line
+    def cond_facts(c):
+        st = fv.stmt_of(c)
+        out = facts_at(st)
+        child = c
+        for anc in fv.ancestors(c):
+            if isinstance(anc, ast.stmt):
+                break
+            if isinstance(anc, ast.IfExp) and child is not anc.test:
+                out.extend(_atoms(S.ev(anc.test, st), child is anc.body))
+            child = anc
+        return out
+
+    for kind, want in (("HttpResponse", True), ("HttpRequest", False)):
+        for c in ctors[kind]:
+            facts = cond_facts(c)
+            pref = [pol for a, pol in facts if _is_prefix_test(a, lines)]
+            others = [a for a, pol in facts if not _is_prefix_test(a, lines) and _len_fact(a, pol) is None and any(_contains(a, l) for l in lines)]
+            where = "under" if want else "outside"
+            if want in pref and (not want) not in pref:
+                ctx.ob("R4", "AGREE", f, f"return {kind}", True, f"{kind} is constructed {where} the case-insensitive `HTTP/` prefix test on the start line", c)
+            elif pref:
+                ctx.ob("R4", "AGREE", f, f"return {kind}", False, f"{kind} is constructed on the wrong side of the `HTTP/` prefix test on the start line", c)
+            elif any(_understood_test(a) for a in others):
+                ctx.ob("R4", "AGREE", f, f"return {kind}", False,
+                       f"{kind} is selected by {[_show(a) for a in others]} instead of the case-insensitive `HTTP/` prefix of the start line", c)
+            else:
+                ctx.undecided("R4", "AGREE", f, f"return {kind}", f"no branch condition the rules understand selects the {kind} construction on the start line (conditions: {[_show(a) for a, _p in facts]})", c)
+    for r in cfg.return_stmts():
+        t = S.ev(r.value, r)
+        v = _judge(t, lambda a: a[0] == "ctor" and a[1] in ctors)
+        kinds = sorted({a[1] for a in _alts(t) if a[0] == "ctor"}) or ["<other>"]
+        _emit(ctx, "R4", "EXIT", f, "returns a parsed message", v, f"returns {'/'.join(kinds)}", f"returns {_show(t)}: not an HttpRequest/HttpResponse built here", r)
     ctx.ob("R4", "EXIT", f, "falls off end", not cfg.falls_off_end(), "never returns None")
-    # ---- R5
-    loops = [s for s in statements(f.node) if isinstance(s, ast.For)]
-    ok = False
-    detail = "no header loop"
-    for lp in loops:
-        it = lp.iter
-        if isinstance(it, ast.Call) and isinstance(it.func, ast.Attribute) and it.func.attr == "split" and _c(it.args[0]) == b"\r\n":
-            hv = dotted(lp.target)
-            parts = [c for c in ast.walk(lp) if isinstance(c, ast.Call) and isinstance(c.func, ast.Attribute) and c.func.attr == "partition" and dotted(c.func.value) == hv]
-            stores = [s for s in ast.walk(lp) if isinstance(s, ast.Assign) and isinstance(s.targets[0], ast.Subscript) and dotted(s.targets[0].value) == HD]
-            sep_ok = len(parts) == 1 and _c(parts[0].args[0]) == b": "
-            st_ok = False
-            if len(stores) == 1 and sep_ok:
-                pst = fv.stmt_of(parts[0])
-                names = [dotted(t) for t in pst.targets[0].elts] if isinstance(pst, ast.Assign) and isinstance(pst.targets[0], ast.Tuple) else []
-                st_ok = len(names) == 3 and dotted(stores[0].targets[0].slice) == names[0] and dotted(stores[0].value) == names[2]
-            # iterates the rest of the head (after the start line)
-            rest = dotted(it.func.value)
-            rest_ok = any(i == 2 for st, i, v in _unpack_of(f, rest) if isinstance(v, ast.Call) and _c(v.args[0]) == b"\r\n")
-            ok = sep_ok and st_ok and rest_ok
-            detail = f"header lines = rest-of-head.split(b'\\r\\n')={rest_ok}; each partitioned at b': '={sep_ok}; stored key->value in order={st_ok}"
-    ctx.ob("R5", "AGREE", f, "header lines", ok, detail)
-    hd = [v for st, v in assignments_to(f.node, HD)]
-    ctx.ob("R5", "AGREE", f, "headers = {}", len(hd) == 1 and isinstance(hd[0], ast.Dict) and not hd[0].keys, "header map starts empty (insertion order preserved)")
+
+    # ---- R3 headers / R5: the header map
+    def p_headers_lines(a):
+        return a[0] == "map" and a[1] == ("meth", "split", REST, (("const", CRLF),), ())
+
+    hmaps = []
+    for kind, cs in ctors.items():
+        for c in cs:
+            t = fld(c, kind, "headers")
+            if t is None:
+                ctx.undecided("R3", "AGREE", f, f"{kind}(headers=headers)", "the headers argument of the construction cannot be located", c)
+                continue
+            if t not in hmaps:
+                hmaps.append(t)
+            v = _judge(t, p_headers_lines)
+            _emit(ctx, "R3", "AGREE", f, f"{kind}(headers=headers)", v, "headers bound to the map built over the CRLF-separated lines of the head after the start line",
+                  f"headers of {kind} is {_show(t)}: not a map built over rest-of-head.split(b'\\r\\n')", c)
+    key_t = ("part", "partition", ELEM, ("const", b": "), 0)
+    val_t = ("part", "partition", ELEM, ("const", b": "), 2)
+    for t in hmaps:
+        vi = _judge(t, p_headers_lines)
+        vk = _judge(t, lambda a: a[0] == "map" and a[2] == key_t and a[3] == val_t)
+        _emit(ctx, "R5", "AGREE", f, "header lines", _worst(vi, vk),
+              "header lines = rest-of-head.split(b'\\r\\n'); each partitioned at the first b': '; stored key -> value in line order",
+              f"header map is {_show(t)}: lines = rest-of-head.split(b'\\r\\n')={vi == 'ok'}; key/value = the components before/after the first b': ' of each line={vk == 'ok'}")
+        if all(a[0] == "map" for a in _alts(t)):
+            ok = all(not a[4] for a in _alts(t))
+            ctx.ob("R5", "AGREE", f, "headers = {}", ok, "header map starts empty (insertion order preserved)" if ok else f"header map does not start empty: {_show(t)}")
+    if not hmaps:
+        ctx.undecided("R5", "AGREE", f, "header lines", "no header map reaches a construction")
+
     # ---- R6
     effects.check_escape(ctx, "R6", ["c2.parse_raw_http"], {"ValueError"})
+
     # ---- R7 [API]: percent-decoding must be able to produce every byte value. urllib's parse_qsl on *bytes* decodes the
     # query as ASCII, unquotes as UTF-8 and re-encodes the result as ASCII: any parameter that decodes to a non-ASCII byte
     # raises UnicodeEncodeError. A necessary condition for "any key/value bytes" is therefore that the query is parsed as
     # text with a single-byte codec (encoding="latin-1", then encoded back) or with unquote_to_bytes.
-    qs = [c for c in fn_calls(f.node) if dotted(c.func) in ("parse_qsl", "urllib.parse.parse_qsl", "parse_qs", "urllib.parse.parse_qs")]
+    def codec_ok(t):
+        return t is not None and t[0] == "const" and isinstance(t[1], str) and t[1].lower().replace("_", "-") in _CODEC_LATIN1
+
+    qs = [c for c in fn_calls(f.node) if _ext_name(ctx, f, c) in ("parse_qsl", "parse_qs")]
     for c in qs:
-        enc = kwarg(c, "encoding")
-        ok = enc is not None and str(_c(enc)).lower().replace("_", "-") in ("latin-1", "latin1", "iso-8859-1")
+        enc = kwarg(c, "encoding") or (c.args[3] if len(c.args) > 3 and not any(isinstance(a, ast.Starred) for a in c.args) else None)
+        et = S.ev(enc, fv.stmt_of(c)) if enc is not None else None
+        ok = codec_ok(et)
+        if not ok and et is not None and _has_opaque(et):
+            ctx.undecided("R7", "API", f, "parse_qsl(query)", f"the `encoding=` argument {src(enc)} is not a constant the evaluation can determine", c)
+            continue
         ctx.ob("R7", "API", f, "parse_qsl(query)", ok, "query parsed as text with a single-byte codec: every percent-encoded byte value survives" if ok else
                "parse_qsl is applied without a single-byte `encoding=`: with a bytes query the result is re-encoded as ASCII, so a parameter such as ?q=caf%C3%A9 raises UnicodeEncodeError instead of yielding its bytes", c)
-    ub = [c for c in fn_calls(f.node) if (dotted(c.func) or "").split(".")[-1] in ("unquote_to_bytes", "unquote", "unquote_plus")]
+    # the decoded text is turned back into bytes with that same single-byte codec
+    for c in ctors["HttpRequest"]:
+        p_t = fld(c, "HttpRequest", "params")
+        for a in _alts(p_t) if p_t is not None else []:
+            if a[0] == "map" and a[1][0] == "call" and a[1][1] == "parse_qsl":
+                encs = [s for x in (a[2], a[3]) for s in _strip_codec(x)[1][:1] if s[0] == "encode"]
+                if encs:
+                    def enc_of(s):
+                        return s[1][0] if s[1] else dict(s[2]).get("encoding", ("const", "utf-8"))
+                    ok = all(codec_ok(enc_of(s)) for s in encs)
+                    ctx.ob("R7", "API", f, "parameters re-encoded with the parsing codec", ok,
+                           "names and values are encoded back with the single-byte codec they were parsed with" if ok else
+                           f"names/values are encoded back with {[_show(enc_of(s)) for s in encs]}: bytes >= 0x80 do not survive the round trip", c)
+    ub = [c for c in fn_calls(f.node) if _ext_name(ctx, f, c) in ("unquote_to_bytes", "unquote", "unquote_plus")]
     if not qs and not ub:
-        ctx.ob("R7", "API", f, "query decoding", False, "no percent-decoding of the query found")
+        if any(_has_opaque(fld(c, "HttpRequest", "params") or _opaque("missing")) for c in ctors["HttpRequest"]):
+            ctx.undecided("R7", "API", f, "query decoding", "no library percent-decoder is called in the parser itself; the parameters are computed elsewhere")
+        else:
+            ctx.ob("R7", "API", f, "query decoding", False, "no percent-decoding of the query found")
     # percent-decoding happens once, in the query parser, after the target has been split: decoding earlier turns
     # escaped delimiters (%26 %3D %23 %2B) into live ones and decodes literal percent signs twice
     if qs:
         ctx.ob("R7", "API", f, "percent-decoding applied once", not ub,
                "parse_qsl is the only percent-decoder" if not ub else f"additional percent-decoding besides parse_qsl: {[src(c)[:40] for c in ub]}", (ub or qs)[0])
+
     # ---- R8: every call builds fresh result objects (the header/parameter maps are mutable and callers write into
     # them, e.g. HttpDataTransform.transform): the parser must not be wrapped by a caching decorator
-    decs = [src(d) for d in f.node.decorator_list]
-    ctx.ob("R8", "API", f, "undecorated parser", not decs, "no decorator: each parse returns new objects" if not decs else f"parser is wrapped by {decs}: results (holding mutable maps) may be shared between calls", f.node)
+    decs = f.node.decorator_list
+    if not decs:
+        ctx.ob("R8", "API", f, "undecorated parser", True, "no decorator: each parse returns new objects", f.node)
+    for d in decs:
+        name = (dotted(d.func if isinstance(d, ast.Call) else d) or "").split(".")[-1].lower()
+        if "cache" in name or "memo" in name:
+            ctx.ob("R8", "API", f, "undecorated parser", False, f"parser is wrapped by {src(d)}: results (holding mutable maps) may be shared between calls", f.node)
+        else:
+            ctx.undecided("R8", "API", f, "undecorated parser", f"parser is wrapped by {src(d)}, whose effect on the identity of the results is not known", f.node)
+
